@@ -3,8 +3,8 @@
    intended reading written from the RFC text: any CSRC count, one-byte / two-byte blocks with
    padding bytes anywhere between elements, legacy blocks, RTP padding with free fill bytes. *)
 From Coq Require Import ZArith List Lia.
-From RTP Require Import Base.Res Base.ListX Model.RtpPacket Spec.Rfc8285 Spec.Rfc3550 Proofs.Decode3550
-  Proofs.C01_Roundtrip Model.HeaderExtViews Proofs.C03_Views.
+From RTP Require Import Base.Bits Base.Res Base.ListX Base.Bytes Model.RtpPacket Spec.Rfc8285 Spec.Rfc3550 Proofs.Decode3550
+  Proofs.C01_Roundtrip Model.HeaderExtViews Proofs.C03_Views Proofs.C03_Reencode.
 Import ListNotations.
 Open Scope Z_scope.
 
@@ -28,6 +28,33 @@ Proof.
   exists bs, offs. auto.
 Qed.
 Print Assumptions C03_canonical.
+
+(* "any accepted input re-marshals to bytes that decode to an equal packet": for EVERY byte string
+   Packet.Unmarshal accepts into a fresh Packet (layouts the encoder never produces included:
+   padding bytes between elements, id 0 with a length nibble, the reserved id 15 stop, legacy
+   profiles, RTP padding with any fill), the decoded packet is well-formed in the sense of C01,
+   Marshal succeeds, and Unmarshal of those bytes yields exactly the same packet.  The one
+   exception is exact: the P bit with a zero padding count is accepted by Unmarshal and refused
+   by Marshal with errInvalidRTPPadding. *)
+Theorem C03_reencode : forall buf r, bytes_ok buf ->
+  packet_unmarshal_into empty_packet buf = Ok r ->
+  let q := pr_packet r in
+  (padding (hdr q) = true /\ padding_size q = 0 /\ packet_marshal q = Err EInvalidPadding) \/
+  (wf_packet q /\ exists bs offs, packet_marshal q = Ok bs /\ zlen bs = packet_marshal_size q /\
+     packet_unmarshal_into empty_packet bs = Ok (mkPktResult q (header_marshal_size (hdr q)) offs)).
+Proof. exact packet_reencode. Qed.
+Print Assumptions C03_reencode.
+
+(* non-vacuity: a non-canonical accepted input (padding byte first, id 0 with two value bytes,
+   RTP padding 2 with a non-zero fill byte) and the zero-count exception *)
+Example C03_reencode_nonvacuous :
+  (exists r, packet_unmarshal_into empty_packet
+      [176; 96; 0; 1; 0; 0; 0; 2; 0; 0; 0; 3; 190; 222; 0; 1; 0; 1; 7; 8; 153; 5; 2] = Ok r /\
+      extensions (hdr (pr_packet r)) = [mkExt 0 [7; 8]] /\ payload (pr_packet r) = [153] /\
+      padding_size (pr_packet r) = 2) /\
+  (exists r, packet_unmarshal_into empty_packet [160; 96; 0; 1; 0; 0; 0; 2; 0; 0; 0; 3; 9; 0] = Ok r /\
+      padding_size (pr_packet r) = 0).
+Proof. split; eexists; (split; [vm_compute; reflexivity|]); repeat split. Qed.
 
 (* the standalone views of a one-byte / two-byte block (padding bytes anywhere) report the same
    ids, in order, and the same value per id as the decoded Header: [lookup (elems items)] is
